@@ -34,6 +34,8 @@ func execHops(input string) Result {
 	atoi := func(k string) int { n, _ := strconv.Atoi(kv[k]); return n }
 	hops, maxhops, status, redirs, mr := atoi("hops"), atoi("maxhops"), atoi("status"), atoi("redirs"), atoi("mr")
 	dc := kv["dc"] == "1"
+	doc := kv["doc"] // "" / "html" = an HTML page; "json" / "xml" = a structured document whose extension-less URLs are
+	// outlinks found among the assets (extractAssets' second result) and whose URLs with a file extension are assets
 	c := config.Get()
 	c.MaxHops, c.MaxRedirect, c.DisableAssetsCapture = maxhops, mr, false
 	domainscrawl.Reset()
@@ -74,13 +76,51 @@ func execHops(input string) Result {
 		}
 	}
 	b.WriteString("</body></html>\n")
-	u := &models.URL{Raw: "http://page.example/index.html", Hops: hops, Redirects: redirs}
+	ctype := "text/html; charset=utf-8"
+	pageURL := "http://page.example/index.html"
+	if doc == "json" || doc == "xml" {
+		// the same planted URLs, as string values / text nodes; L, M (Link header) stay in the header; t = a string value too
+		want, linkHeader = nil, nil
+		var vals []string
+		for i, k := range kinds {
+			switch k {
+			case "m", "M":
+				vals = append(vals, fmt.Sprintf("http://match.example/p%d", i))
+				want = append(want, vals[len(vals)-1]+"|1")
+			case "n", "L", "t":
+				vals = append(vals, fmt.Sprintf("http://other.example/p%d", i))
+				want = append(want, vals[len(vals)-1]+"|0")
+			case "i":
+				vals = append(vals, fmt.Sprintf("http://page.example/img%d.png", i))
+			}
+		}
+		b.Reset()
+		if doc == "json" {
+			ctype, pageURL = "application/json", "http://page.example/api/list"
+			b.WriteString("{\"items\":[")
+			for i, v := range vals {
+				if i > 0 {
+					b.WriteString(",")
+				}
+				fmt.Fprintf(&b, "{\"u\":%q}", v)
+			}
+			b.WriteString("]}")
+		} else {
+			ctype, pageURL = "application/xml", "http://page.example/api/feed"
+			b.WriteString("<?xml version=\"1.0\"?><feed>")
+			for _, v := range vals {
+				fmt.Fprintf(&b, "<entry><link>%s</link></entry>", v)
+			}
+			b.WriteString("</feed>")
+		}
+	}
+	u := &models.URL{Raw: pageURL, Hops: hops, Redirects: redirs}
 	if err := u.Parse(); err != nil {
 		panic(err)
 	}
 	it := models.NewItem(uuid.New().String(), u, "")
 	resp := &http.Response{StatusCode: status, Header: http.Header{}, Body: io.NopCloser(bytes.NewReader([]byte(b.String())))}
-	resp.Header.Set("Content-Type", "text/html; charset=utf-8")
+	resp.Header.Set("Content-Type", ctype)
 	if status >= 300 && status < 400 {
 		resp.Header.Set("Location", "http://page.example/moved")
 	}
@@ -108,7 +148,7 @@ func execHops(input string) Result {
 			seen[k] = true
 			got = append(got, k)
 		}
-		if o.GetSeedVia() != "http://page.example/index.html" {
+		if o.GetSeedVia() != pageURL {
 			viaOK = false
 		}
 	}
@@ -138,7 +178,10 @@ func execHops(input string) Result {
 		via = 1
 	}
 	term := fmt.Sprintf("HC (OCfg %d %s) %d %d %d %d %s %s %s %d", maxhops, coqBool(dc), hops, status, redirs, mr, coqList(links), coqList(obs), coqList(kids), via)
-	return Result{Term: term, Tags: []string{fmt.Sprintf("dc:%v", dc), fmt.Sprintf("hops-vs-max:%d", cmpInt(hops, maxhops)), fmt.Sprintf("status:%d", status), fmt.Sprintf("links:%d", len(kinds))},
+	if doc == "" {
+		doc = "html"
+	}
+	return Result{Term: term, Tags: []string{"doc:" + doc, fmt.Sprintf("dc:%v", dc), fmt.Sprintf("hops-vs-max:%d", cmpInt(hops, maxhops)), fmt.Sprintf("status:%d", status), fmt.Sprintf("links:%d", len(kinds))},
 		Nontrivial: len(want) > 0}
 }
 
@@ -165,7 +208,13 @@ func genHops(r *Rng, i int, tier string) string {
 		ks = append(ks, []string{"m", "n", "n", "i", "L", "M", "t"}[r.Intn(7)])
 	}
 	mr := r.Intn(4)
-	return fmt.Sprintf("hops=%d maxhops=%d dc=%d status=%d redirs=%d mr=%d links=%s", hops, maxhops, r.Intn(2), status, r.Intn(mr+2), mr, strings.Join(ks, ","))
+	s := fmt.Sprintf("hops=%d maxhops=%d dc=%d status=%d redirs=%d mr=%d links=%s", hops, maxhops, r.Intn(2), status, r.Intn(mr+2), mr, strings.Join(ks, ","))
+	if x := r.Intn(10); x < 2 {
+		s += " doc=json"
+	} else if x < 4 {
+		s += " doc=xml"
+	}
+	return s
 }
 
 func init() {
